@@ -521,6 +521,7 @@ func R16(p *core.Prog) *core.Result {
 	env := &aliasEnv{p: p, retains: map[*ssa.Function]map[int]string{}, returns: map[*ssa.Function]map[int]bool{}, gated: map[ssa.Instruction]string{}}
 	wsum := ComputeWriteSummaries(p)
 	typeGate(p, r)
+	emptyIfaceGate(p, r)
 
 	// (b) FRESH-GATE for json: unquote
 	unq := p.LookupFunc("json", "(*Parser).unquote")
